@@ -30,7 +30,7 @@ SCOPES: list[tuple[str, list[str]]] = [
     ('runners.serial.SerialRunner.', ['C01', 'C02', 'C05', 'C10', 'C11', 'C17']),
     ('runners.process.ForkProcessRunner.', ['C01', 'C02', 'C16', 'C17']),
     ('runners.process.SpawnProcessRunner.', ['C01', 'C02', 'C16', 'C17']),
-    ('runners.base.run_or_load_task', ['C01', 'C03', 'C06', 'C08', 'C12']),
+    ('runners.base.run_or_load_task', ['C01', 'C02', 'C03', 'C06', 'C08', 'C10', 'C12', 'C16']),
     ('runners.', ['C01', 'C10', 'C11', 'C16']),
     ('serialization.Serializer.', ['C06', 'C07', 'C09']),
     ('cache.', ['C06', 'C08', 'C09', 'C12', 'C13']),
